@@ -96,3 +96,7 @@ package config
 //@ assume config.newConfigAndRules
 
 //@ contract config.(*DefaultTrue).Get inline
+
+// ---- accessors used by the collector (C03)
+//@ contract config.TracesConfig.GetSendDelay inline
+//@ contract config.TracesConfig.GetTraceTimeout inline
